@@ -552,6 +552,10 @@ fn wrap_hidden_only(mut p: P, it: &J) -> P {
     if b(it, "hide_usage") {
         p = p.hide_usage().boxed();
     }
+    let cu = s(it, "custom_usage");
+    if !cu.is_empty() {
+        p = p.custom_usage(leak(&dstr(cu))).boxed();
+    }
     if b(it, "hidden") {
         p = p.hide().boxed();
     }
